@@ -283,6 +283,8 @@ def check(model, rep):
     check_setters(model, rep)
     from sa.forwarding import check_forwarding
     check_forwarding(model, rep, 'C10.forwarding', ('drives', 'driven_by', 'mating_role', 'master_gear_ratio', 'master_gear_efficiency', 'self_locking'))
+    from sa.forwarding import check_setter_stores
+    check_setter_stores(model, rep, 'C10.setter-stores', ('drives', 'driven_by', 'mating_role', 'master_gear_ratio', 'master_gear_efficiency', 'self_locking'))
     rep.require('C10.effects', 4)
     rep.require('C10.rejects', 20)
     rep.require('C10.atomic', 3)
